@@ -276,7 +276,17 @@ def term_sum(draw, params=(), symbolic=True):
     names = VARS + tuple(params)
 
     def atom():
-        c = d(st.integers(0, 11))
+        c = d(st.integers(0, 12))
+        if c == 12 and symbolic:
+            # a quotient is a multiplicative term for the collector (an opaque base)
+            v = ["Var", d(st.sampled_from(names))]
+            w = ["Var", d(st.sampled_from(VARS))]
+            return list(d(st.sampled_from((
+                ["Quotient", v, w], ["Quotient", ["Const", "int", 1], w],
+                ["Quotient", v, ["Const", "int", 2]],
+                ["Quotient", ["Sum", [v, ["Const", "int", 1]]], w],
+                ["Quotient", ["Const", "int", 3], ["Product", [["Const", "int", 2], w]]],
+                ["Power", ["Quotient", v, w], ["Const", "int", 2]]))))
         if c <= 4:
             return ["Var", d(st.sampled_from(names))]
         if c <= 7:
